@@ -49,6 +49,7 @@ func c10Render(s ReadOnlySpan) string {
 }
 
 type c10Proc struct {
+	yield bool         // OnEnd takes time: other threads may run while the span's End walks its processor list
 	ends  atomic.Int32 // OnEnd calls for the span under test
 	snap  atomic.Pointer[ReadOnlySpan]
 	copy  atomic.Pointer[string]
@@ -58,7 +59,10 @@ type c10Proc struct {
 
 func (p *c10Proc) OnStart(context.Context, ReadWriteSpan) { p.start.Add(1) }
 func (p *c10Proc) OnEnd(s ReadOnlySpan) {
-	if s.Name() == "child" {
+	if p.yield {
+		sched.Yield("processor OnEnd", p)
+	}
+	if s.Name() == "child" || s.Name() == "dropped" {
 		p.other.Add(1)
 		return
 	}
@@ -70,10 +74,28 @@ func (p *c10Proc) OnEnd(s ReadOnlySpan) {
 func (p *c10Proc) Shutdown(context.Context) error   { return nil }
 func (p *c10Proc) ForceFlush(context.Context) error { return nil }
 
+// c10DropNamed drops spans named "dropped", samples everything else.
+type c10DropNamed struct{}
+
+func (c10DropNamed) ShouldSample(p SamplingParameters) SamplingResult {
+	d := RecordAndSample
+	if p.Name == "dropped" {
+		d = Drop
+	}
+	return SamplingResult{Decision: d, Tracestate: trace.SpanContextFromContext(p.ParentContext).TraceState()}
+}
+func (c10DropNamed) Description() string { return "c10DropNamed" }
+
+// c10SlowErr is a panic value whose Error takes time (a scheduling point).
+type c10SlowErr struct{ rs *recordingSpan }
+
+func (e c10SlowErr) Error() string { sched.Yield("panic value Error()", e.rs); return "slow boom" }
+
 type c10Scn struct {
 	name    string
 	threads [][]string
-	atLimit bool // event / link / attribute count limits of 1, already reached before the threads start
+	atLimit bool   // event / link / attribute count limits of 1, already reached before the threads start
+	extra   string // "" | "3procs" (p1,p2,p3 registered, OnEnd yields) | "dropSampler" (children named "dropped" are not recorded)
 }
 
 // ops: End, EndTS (End with explicit timestamp), Attr (SetAttributes k=1,l=2), Event, Status, Name,
@@ -88,6 +110,14 @@ func c10Body(sc c10Scn, tracing bool, res *string) func(x *sched.Exec) {
 			// queues at capacity: a late mutation evicts in place instead of appending
 			opts = append(opts, WithRawSpanLimits(SpanLimits{AttributeValueLengthLimit: -1, AttributeCountLimit: 1, EventCountLimit: 1, LinkCountLimit: 1,
 				AttributePerEventCountLimit: -1, AttributePerLinkCountLimit: -1}))
+		}
+		p3 := &c10Proc{}
+		if sc.extra == "3procs" {
+			p1.yield, p2.yield, p3.yield = true, true, true
+			opts = append(opts, WithSpanProcessor(p2), WithSpanProcessor(p3))
+		}
+		if sc.extra == "dropSampler" {
+			opts[1] = WithSampler(c10DropNamed{})
 		}
 		tp := NewTracerProvider(opts...)
 		tr := tp.Tracer("t")
@@ -165,6 +195,31 @@ func c10Body(sc c10Scn, tracing bool, res *string) func(x *sched.Exec) {
 						if op == "Child" {
 							c.End()
 						}
+					case "Unreg1":
+						tp.UnregisterSpanProcessor(p1)
+					case "ChildDropped": // a child the sampler drops still is a child
+						endReturnedBefore := firstEndReturned.Load() != 0
+						if !endReturnedBefore {
+							childStartCalledBeforeEndReturn.Add(1)
+						}
+						_, c := tr.Start(ctx, "dropped")
+						if firstEndCalled.Load() == 0 {
+							childStartedBeforeEndCall.Add(1)
+						}
+						c.End()
+					case "PanicEnd": // defer span.End(); panic(v) — End records the panic (recover works only when
+						// End itself is the deferred call); v.Error() takes time
+						func() {
+							defer func() { _ = recover() }() // End re-panics after recording
+							defer func() {
+								firstEndReturned.CompareAndSwap(0, int64(x.Step())+1)
+								o.endTimes = append(o.endTimes, rs.EndTime().UnixNano())
+							}()
+							defer sp.End()
+							firstEndCalled.CompareAndSwap(0, int64(x.Step())+1)
+							endCalls.Add(1)
+							panic(c10SlowErr{rs})
+						}()
 					case "Tracer":
 						_, c := tp.Tracer("other").Start(context.Background(), "child")
 						c.End()
@@ -176,6 +231,18 @@ func c10Body(sc c10Scn, tracing bool, res *string) func(x *sched.Exec) {
 		}
 		wg.Wait()
 		// ---- oracle (root thread, after the join)
+		if sc.extra == "3procs" {
+			for i, p := range []*c10Proc{p2, p3} {
+				if n := p.ends.Load(); n != 1 {
+					x.Fail("C10|span-delivered-not-exactly-once|processor registered throughout", "processor p%d stayed registered during End (only p1 was unregistered) and received the span %d times", i+2, n)
+				}
+			}
+			if n := p1.ends.Load(); n > 1 {
+				x.Fail("C10|span-delivered-not-exactly-once", "p1 received the span %d times", n)
+			}
+			*res = fmt.Sprintf("p1=%d p2=%d p3=%d", p1.ends.Load(), p2.ends.Load(), p3.ends.Load())
+			return
+		}
 		if n := p1.ends.Load(); n != 1 {
 			x.Fail("C10|span-delivered-not-exactly-once", "span delivered to its processor %d times (End called %d times)", n, endCalls.Load())
 		}
@@ -249,17 +316,20 @@ func (j c10Job) name() string {
 
 func c10Jobs(thorough, race bool) []c10Job {
 	scs := []c10Scn{
-		{"A-end-end-attr", [][]string{{"End"}, {"End"}, {"Attr"}}, false},
-		{"B-end-event-status", [][]string{{"End"}, {"Event"}, {"Status"}}, false},
-		{"C-end-name-link", [][]string{{"EndTS"}, {"Name"}, {"Link"}}, false},
-		{"D-end-error-isrec", [][]string{{"End"}, {"Error"}, {"IsRec", "IsRec"}}, false},
-		{"E-end-children", [][]string{{"End"}, {"Child"}, {"ChildStart"}}, false},
-		{"F-end-end-isrec", [][]string{{"End", "IsRec"}, {"EndTS"}}, false},
-		{"G-provider", [][]string{{"Tracer"}, {"Register"}, {"End"}}, false},
-		{"H-atlimit-end-error-event", [][]string{{"End"}, {"Error"}, {"Event"}}, true},
-		{"I-atlimit-end-link-attr", [][]string{{"End"}, {"Link"}, {"Attr"}}, true},
-		{"J-4threads-end-end-attr-event", [][]string{{"End"}, {"EndTS"}, {"Attr"}, {"Event"}}, false},
-		{"K-end-status-name-error", [][]string{{"End"}, {"Status", "Name"}, {"Error", "IsRec"}}, false},
+		{"A-end-end-attr", [][]string{{"End"}, {"End"}, {"Attr"}}, false, ""},
+		{"B-end-event-status", [][]string{{"End"}, {"Event"}, {"Status"}}, false, ""},
+		{"C-end-name-link", [][]string{{"EndTS"}, {"Name"}, {"Link"}}, false, ""},
+		{"D-end-error-isrec", [][]string{{"End"}, {"Error"}, {"IsRec", "IsRec"}}, false, ""},
+		{"E-end-children", [][]string{{"End"}, {"Child"}, {"ChildStart"}}, false, ""},
+		{"F-end-end-isrec", [][]string{{"End", "IsRec"}, {"EndTS"}}, false, ""},
+		{"G-provider", [][]string{{"Tracer"}, {"Register"}, {"End"}}, false, ""},
+		{"H-atlimit-end-error-event", [][]string{{"End"}, {"Error"}, {"Event"}}, true, ""},
+		{"I-atlimit-end-link-attr", [][]string{{"End"}, {"Link"}, {"Attr"}}, true, ""},
+		{"J-4threads-end-end-attr-event", [][]string{{"End"}, {"EndTS"}, {"Attr"}, {"Event"}}, false, ""},
+		{"K-end-status-name-error", [][]string{{"End"}, {"Status", "Name"}, {"Error", "IsRec"}}, false, ""},
+		{"L-3procs-end-unregister", [][]string{{"End"}, {"Unreg1"}}, false, "3procs"},
+		{"M-panicking-end-vs-end", [][]string{{"PanicEnd"}, {"EndTS"}}, false, ""},
+		{"N-dropped-children", [][]string{{"End"}, {"ChildDropped"}, {"Child"}}, false, "dropSampler"},
 	}
 	p := 3
 	if thorough {
